@@ -108,80 +108,66 @@ Qed.
 Lemma length_chars s : List.length (chars s) = String.length s.
 Proof. induction s as [|c s IH]; [reflexivity|]. cbn [chars list_ascii_of_string List.length String.length]. f_equal. exact IH. Qed.
 
-Section UpperName.
-  Variable name : string.
-  Hypothesis H : doc_upper_name name = true.
+(* the three name predicates of the sources against the documented convention *)
+Lemma py_const_spec name : py_const_name name = spec_upper_name name.
+Proof.
+  unfold py_const_name, spec_upper_name, py_isupper. replace py_const_len_cmp with CGt by reflexivity. replace py_const_len with 1 by reflexivity.
+  reflexivity.
+Qed.
 
-  Lemma upper_shape : exists c r, chars name = c :: r /\ is_upper_char c = true /\ forallb is_const_name_char r = true /\ 2 <= String.length name.
-  Proof.
-    unfold doc_upper_name in H. apply andb_prop in H. destruct H as [H1 H2]. apply Nat.leb_le in H2.
-    unfold re_const_name in H1. destruct (chars name) as [|c r]; [discriminate|]. apply andb_prop in H1. destruct H1 as [Hc Hr].
-    exists c, r. auto.
-  Qed.
+Lemma def_const_doc name : def_const_name name = doc_upper_name name.
+Proof.
+  unfold def_const_name, doc_upper_name. replace def_const_short_cmp with CLt by reflexivity. replace def_const_short_len with 2 by reflexivity.
+  cbn [cmp_nat]. rewrite andb_comm. f_equal.
+  destruct (Nat.ltb_spec (String.length name) 2); destruct (Nat.leb_spec 2 (String.length name)); try reflexivity; lia.
+Qed.
 
-  Lemma upper_no_lower : existsb is_lower_char (chars name) = false.
-  Proof.
-    destruct upper_shape as [c [r [E [Hc [Hr _]]]]]. rewrite E. cbn [existsb]. rewrite (upper_not_lower c Hc). cbn [orb].
-    apply existsb_false_forallb. rewrite forallb_forall in *. intros x Hx. rewrite (const_char_not_lower x (Hr x Hx)). reflexivity.
-  Qed.
+Lemma forallb_const_no_lower r : forallb is_const_name_char r = true -> existsb is_lower_char r = false.
+Proof.
+  intros H. apply existsb_false_forallb. rewrite forallb_forall in *. intros x Hx. rewrite (const_char_not_lower x (H x Hx)). reflexivity.
+Qed.
 
-  Lemma upper_py_const : py_const_name name = true.
-  Proof.
-    destruct upper_shape as [c [r [E [Hc [Hr Hl]]]]].
-    unfold py_const_name. replace py_const_len_cmp with CGt by reflexivity. replace py_const_len with 1 by reflexivity.
-    unfold py_isupper. rewrite upper_no_lower. rewrite E. cbn [existsb]. rewrite Hc. cbn [orb negb andb cmp_nat].
-    apply Nat.ltb_lt. lia.
-  Qed.
+(* ^[A-Z][A-Z0-9_]+$ names are UPPER_CASE names *)
+Lemma doc_upper_spec name : doc_upper_name name = true -> spec_upper_name name = true.
+Proof.
+  unfold doc_upper_name, spec_upper_name, re_const_name. intros H. apply andb_prop in H. destruct H as [H1 H2]. rewrite H2, andb_true_r.
+  destruct (chars name) as [|c r]; [discriminate|]. apply andb_prop in H1. destruct H1 as [Hc Hr].
+  cbn [existsb]. rewrite Hc, (upper_not_lower c Hc), (forallb_const_no_lower r Hr). reflexivity.
+Qed.
 
-  Lemma upper_def_const : def_const_name name = true.
-  Proof.
-    unfold def_const_name. replace def_const_short_cmp with CLt by reflexivity. replace def_const_short_len with 2 by reflexivity.
-    unfold doc_upper_name in H. apply andb_prop in H. destruct H as [H1 H2]. rewrite H1. cbn [cmp_nat].
-    apply Nat.leb_le in H2. rewrite andb_true_r. apply negb_true_iff. apply Nat.ltb_ge. exact H2.
-  Qed.
+Lemma spec_not_upper_def name : spec_upper_name name = false -> def_const_name name = false.
+Proof.
+  intros H. rewrite def_const_doc. destruct (doc_upper_name name) eqn:E; [|reflexivity]. rewrite (doc_upper_spec name E) in H. discriminate.
+Qed.
 
-  Lemma upper_ts : ts_upper_name name = true.
-  Proof.
-    destruct upper_shape as [c [r [E [Hc [Hr _]]]]]. unfold ts_upper_name. rewrite E. cbn [filter]. rewrite Hc. cbn [orb].
-    cbn [forallb]. rewrite Hc. cbn [andb].
-    rewrite forallb_forall. intros x Hx. apply filter_In in Hx. destruct Hx as [Hx Hp].
-    rewrite forallb_forall in Hr. specialize (Hr x Hx). rewrite (const_char_not_lower x Hr), orb_false_r in Hp. exact Hp.
-  Qed.
-End UpperName.
+(* letters-only upper case = some upper-case letter and no lower-case letter *)
+Lemma letters_upper (s : list ascii) :
+  match filter (fun c => is_upper_char c || is_lower_char c) s with [] => false | letters => forallb is_upper_char letters end
+  = existsb is_upper_char s && negb (existsb is_lower_char s).
+Proof.
+  assert (G : forall s, forallb is_upper_char (filter (fun c => is_upper_char c || is_lower_char c) s) = negb (existsb is_lower_char s)).
+  { induction s0 as [|x xs IH]; [reflexivity|]. cbn [filter existsb]. destruct (is_upper_char x) eqn:U.
+    - cbn [orb forallb]. rewrite U, (upper_not_lower x U), IH. reflexivity.
+    - cbn [orb]. destruct (is_lower_char x) eqn:L; [cbn [forallb]; rewrite U; reflexivity | exact IH]. }
+  induction s as [|x xs IH]; [reflexivity|]. cbn [filter existsb]. destruct (is_upper_char x) eqn:U.
+  - cbn [orb]. cbn [forallb]. rewrite U, (upper_not_lower x U), G. reflexivity.
+  - cbn [orb]. destruct (is_lower_char x) eqn:L.
+    + cbn [forallb]. rewrite U. cbn [negb]. rewrite andb_false_r. reflexivity.
+    + exact IH.
+Qed.
 
-Section LowerName.
-  Variable name : string.
-  Hypothesis H : has_lower name = true.
+Lemma ts_upper_spec name : ts_upper_name name && (2 <=? String.length name) = spec_upper_name name.
+Proof. unfold ts_upper_name, spec_upper_name. rewrite letters_upper. reflexivity. Qed.
 
-  Lemma lower_py_const : py_const_name name = false.
-  Proof. unfold py_const_name, py_isupper. unfold has_lower in H. rewrite H. cbn [negb]. rewrite andb_false_r. reflexivity. Qed.
-
-  Lemma lower_witness : exists x, In x (chars name) /\ is_lower_char x = true.
-  Proof. unfold has_lower in H. apply existsb_exists in H. exact H. Qed.
-
-  Lemma lower_not_upper x : is_lower_char x = true -> is_upper_char x = false.
-  Proof. intros Hx. destruct (is_upper_char x) eqn:E; [|reflexivity]. rewrite (upper_not_lower x E) in Hx. discriminate. Qed.
-
-  Lemma lower_def_const : def_const_name name = false.
-  Proof.
-    unfold def_const_name. apply andb_false_iff. right. unfold re_const_name.
-    destruct lower_witness as [x [Hx Hl]]. destruct (chars name) as [|c r]; [reflexivity|].
-    destruct Hx as [->|Hx].
-    - rewrite (lower_not_upper x Hl). reflexivity.
-    - apply andb_false_iff. right. destruct (forallb is_const_name_char r) eqn:E; [|reflexivity].
-      rewrite forallb_forall in E. specialize (E x Hx). rewrite (const_char_not_lower x E) in Hl. discriminate.
-  Qed.
-
-  Lemma lower_ts : ts_upper_name name = false.
-  Proof.
-    unfold ts_upper_name. destruct lower_witness as [x [Hx Hl]].
-    assert (Hin : In x (filter (fun c => is_upper_char c || is_lower_char c) (chars name))).
-    { apply filter_In. split; [exact Hx|]. rewrite Hl. apply orb_true_r. }
-    destruct (filter _ (chars name)) as [|a l] eqn:E; [reflexivity|].
-    destruct (forallb is_upper_char (a :: l)) eqn:F; [|reflexivity].
-    rewrite forallb_forall in F. specialize (F x Hin). rewrite (lower_not_upper x Hl) in F. discriminate.
-  Qed.
-End LowerName.
+(* the TypeScript predicate with the length requirement (flag off), or on a name that is not a single upper-case letter *)
+Lemma ts_const_spec q name :
+  (negb (q_ts_single_letter_const q) || negb (ts_upper_name name) || (2 <=? String.length name)) = true ->
+  ts_const_name q name = spec_upper_name name.
+Proof.
+  intros H. rewrite <- ts_upper_spec. unfold ts_const_name.
+  destruct (q_ts_single_letter_const q); [|reflexivity]. cbn [negb orb] in *.
+  destruct (ts_upper_name name); [|reflexivity]. cbn [negb orb] in H. rewrite H. reflexivity.
+Qed.
 
 (* ------------------------------------------------------------------ lit_ok unpacked *)
 Lemma lit_ok_int lg r gs up sfx :
@@ -243,9 +229,9 @@ Proof.
   intros Hok Hr. rewrite rs_extract_code. destruct l as [r gs up sfx | ip fp ex sfx | b | s | s]; try discriminate.
   - cbn [lit_raw] in Hr. inversion Hr. subst raw.
     destruct (lit_ok_int _ _ _ _ _ Hok) as [Hg Hz].
-    cbn [lit_ok] in Hok. apply andb_prop in Hok. destruct Hok as [_ Hs].
+    cbn [lit_ok] in Hok. apply andb_prop in Hok. destruct Hok as [_ Hs]. apply andb_prop in Hs. destruct Hs as [Hrad Hs].
     assert (S : exists us s, sfx_split sfx (rs_int_sfx_table r) = Some (us, s)).
-    { apply suffix_in_split. destruct r; cbn [rs_int_sfx_table]; [rewrite suffix_in_app|..];
+    { apply suffix_in_split. destruct r; try discriminate; cbn [rs_int_sfx_table]; [rewrite suffix_in_app|..];
         destruct (String.eqb sfx ""), (suffix_in sfx int_suffixes); cbn in *; try reflexivity; try exact Hs; try discriminate. }
     destruct S as [us [s S]]. cbn [rs_node_type]. apply (rs_extract_int r up gs sfx us s); assumption.
   - cbn [lit_raw] in Hr. inversion Hr. subst raw.
